@@ -597,6 +597,7 @@ func (s *MemoryBackend) ReadStartingWithUser(
 			}
 
 			matches = append(matches, t)
+			break // a tuple is returned once, even if the user filter lists its user twice
 		}
 	}
 	sort.Slice(matches, func(i, j int) bool {
